@@ -863,3 +863,314 @@ def avar1(data):
     if p != len(data):
         raise ReadError("avar: %d bytes, maps end at %d" % (len(data), p))
     return out
+
+
+def otl_first_subtable(data):
+    """GSUB/GPOS table -> (lookupType, lookupFlag, [absolute subtable offsets]) of lookup 0,
+    extension subtables (GSUB 7 / GPOS 9, told apart by the caller) are NOT resolved here."""
+    maj, mino, so, fo, lo = struct.unpack_from(">HHHHH", data, 0)
+    if maj != 1:
+        raise ReadError("OTL major version %d" % maj)
+    n = u16(data, lo)
+    if n < 1:
+        raise ReadError("no lookups")
+    lk = lo + u16(data, lo + 2)
+    ltype, lflag, cnt = u16(data, lk), u16(data, lk + 2), u16(data, lk + 4)
+    subs = [lk + u16(data, lk + 6 + 2 * i) for i in range(cnt)]
+    return ltype, lflag, subs
+
+
+def otl_resolve_extension(data, off):
+    """Extension subtable at off -> (real lookup type, absolute offset)."""
+    if u16(data, off) != 1:
+        raise ReadError("extension format %d" % u16(data, off))
+    return u16(data, off + 2), off + u32(data, off + 4)
+
+
+def otl_feature_lookups(data):
+    """-> {featureTag: [lookup indices]} for the DFLT script's default language system."""
+    so, fo = u16(data, 4), u16(data, 6)
+    out = {}
+    nf = u16(data, fo)
+    feats = []
+    for i in range(nf):
+        tag = data[fo + 2 + 6 * i : fo + 6 + 6 * i].decode("latin-1")
+        f = fo + u16(data, fo + 6 + 6 * i)
+        cnt = u16(data, f + 2)
+        feats.append((tag, [u16(data, f + 4 + 2 * k) for k in range(cnt)]))
+    for tag, lk in feats:
+        out[tag] = lk
+    return out
+
+
+# ------------------------------------------------------------------------------------ tuple variation store
+def packed_points(data, p):
+    """Packed point numbers (OpenType 'Packed point numbers') -> (list or None for 'all points', next pos)."""
+    n = u8(data, p)
+    p += 1
+    if n & 0x80:
+        n = ((n & 0x7F) << 8) | u8(data, p)
+        p += 1
+    if n == 0:
+        return None, p
+    pts = []
+    cur = 0
+    while len(pts) < n:
+        ctl = u8(data, p)
+        p += 1
+        cnt = (ctl & 0x7F) + 1
+        for _ in range(cnt):
+            if ctl & 0x80:
+                cur += u16(data, p)
+                p += 2
+            else:
+                cur += u8(data, p)
+                p += 1
+            pts.append(cur)
+    if len(pts) != n:
+        raise ReadError("packed points: run overshoots the count")
+    return pts, p
+
+
+def packed_deltas(data, p, n):
+    """Packed deltas -> (n ints, next pos)."""
+    out = []
+    while len(out) < n:
+        ctl = u8(data, p)
+        p += 1
+        cnt = (ctl & 0x3F) + 1
+        if ctl & 0x80 and not ctl & 0x40:
+            out.extend([0] * cnt)
+        elif ctl & 0x80 and ctl & 0x40:
+            for _ in range(cnt):
+                out.append(i32(data, p))
+                p += 4
+        elif ctl & 0x40:
+            for _ in range(cnt):
+                out.append(i16(data, p))
+                p += 2
+        else:
+            for _ in range(cnt):
+                v = u8(data, p)
+                out.append(v - 256 if v > 127 else v)
+                p += 1
+    if len(out) != n:
+        raise ReadError("packed deltas: run overshoots the count")
+    return out, p
+
+
+def tuple_variation_store(data, hdr_pos, data_pos, count_field, axis_count, point_count, shared_tuples, width):
+    """Tuple variation store.  hdr_pos: first TupleVariationHeader; data_pos: serialized data;
+    count_field: tupleVariationCount with flags; width 2 (gvar: x and y deltas) or 1 (cvar).
+    -> [ (peak ints, start ints|None, end ints|None, {point: delta tuple}) ] (F2Dot14 raw ints)."""
+    n = count_field & 0x0FFF
+    shared_pts = "none"
+    dp = data_pos
+    if count_field & 0x8000:
+        shared_pts, dp = packed_points(data, dp)
+    out = []
+    hp = hdr_pos
+    for _ in range(n):
+        size, idx = u16(data, hp), u16(data, hp + 2)
+        hp += 4
+        if idx & 0x8000:
+            peak = [i16(data, hp + 2 * a) for a in range(axis_count)]
+            hp += 2 * axis_count
+        else:
+            k = idx & 0x0FFF
+            if k >= len(shared_tuples):
+                raise ReadError("shared tuple index %d of %d" % (k, len(shared_tuples)))
+            peak = list(shared_tuples[k])
+        start = end = None
+        if idx & 0x4000:
+            start = [i16(data, hp + 2 * a) for a in range(axis_count)]
+            hp += 2 * axis_count
+            end = [i16(data, hp + 2 * a) for a in range(axis_count)]
+            hp += 2 * axis_count
+        q = dp
+        if idx & 0x2000:
+            pts, q = packed_points(data, q)
+        else:
+            if shared_pts == "none":
+                raise ReadError("tuple uses shared point numbers but the store has none")
+            pts = shared_pts
+        if pts is None:
+            pts = list(range(point_count))
+        cols = []
+        for _w in range(width):
+            col, q = packed_deltas(data, q, len(pts))
+            cols.append(col)
+        if q != dp + size:
+            raise ReadError("tuple data size %d, decoded %d bytes" % (size, q - dp))
+        out.append((peak, start, end, {pt: tuple(c[i] for c in cols) for i, pt in enumerate(pts)}))
+        dp += size
+    return out
+
+
+def gvar(data, axis_count):
+    """gvar -> (sharedTuples raw ints, [glyph variation data bytes])."""
+    maj, mino, ac, stc, sto, gc, flags, dao = struct.unpack_from(">HHHHLHHL", data, 0)
+    if (maj, ac) != (1, axis_count):
+        raise ReadError("gvar header: version %d axisCount %d" % (maj, ac))
+    shared = [[i16(data, sto + 2 * (k * ac + a)) for a in range(ac)] for k in range(stc)]
+    offs = []
+    for g in range(gc + 1):
+        offs.append(u32(data, 20 + 4 * g) if flags & 1 else 2 * u16(data, 20 + 2 * g))
+    blobs = []
+    for g in range(gc):
+        if offs[g + 1] < offs[g]:
+            raise ReadError("gvar offsets decrease")
+        _need(data, dao + offs[g], offs[g + 1] - offs[g], "glyph variation data")
+        blobs.append(data[dao + offs[g] : dao + offs[g + 1]])
+    return shared, blobs, flags & 1
+
+
+# ------------------------------------------------------------------------------------ COLR v1
+EXTEND = {0: "pad", 1: "repeat", 2: "reflect"}
+_F214 = lambda v: v / 16384
+_ANG = lambda v: v / 16384 * 180
+_BIASED = lambda v: (v / 16384 + 1) * 180  # sweep gradient angles: "add 1.0 and multiply by 180"
+_FIX = lambda v: v / 65536
+# per paint format: list of (field, kind) after the format byte; kinds: p=Offset24 paint,
+# c=Offset24 colorline, t=Offset24 affine, g=glyph id, H=uint16, B=uint8, w=FWORD, W=UFWORD,
+# f=F2Dot14, a=angle, A=biased angle, V=varIndexBase uint32, n=numLayers uint8, L=firstLayerIndex uint32
+PAINT_LAYOUT = {
+    1: [("NumLayers", "n"), ("FirstLayerIndex", "L")],
+    2: [("PaletteIndex", "H"), ("Alpha", "f")],
+    4: [("ColorLine", "c"), ("x0", "w"), ("y0", "w"), ("x1", "w"), ("y1", "w"), ("x2", "w"), ("y2", "w")],
+    6: [("ColorLine", "c"), ("x0", "w"), ("y0", "w"), ("r0", "W"), ("x1", "w"), ("y1", "w"), ("r1", "W")],
+    8: [("ColorLine", "c"), ("centerX", "w"), ("centerY", "w"), ("startAngle", "A"), ("endAngle", "A")],
+    10: [("Paint", "p"), ("Glyph", "g")],
+    11: [("Glyph", "g")],
+    12: [("Paint", "p"), ("Transform", "t")],
+    14: [("Paint", "p"), ("dx", "w"), ("dy", "w")],
+    16: [("Paint", "p"), ("scaleX", "f"), ("scaleY", "f")],
+    18: [("Paint", "p"), ("scaleX", "f"), ("scaleY", "f"), ("centerX", "w"), ("centerY", "w")],
+    20: [("Paint", "p"), ("scale", "f")],
+    22: [("Paint", "p"), ("scale", "f"), ("centerX", "w"), ("centerY", "w")],
+    24: [("Paint", "p"), ("angle", "a")],
+    26: [("Paint", "p"), ("angle", "a"), ("centerX", "w"), ("centerY", "w")],
+    28: [("Paint", "p"), ("xSkewAngle", "a"), ("ySkewAngle", "a")],
+    30: [("Paint", "p"), ("xSkewAngle", "a"), ("ySkewAngle", "a"), ("centerX", "w"), ("centerY", "w")],
+    32: [("SourcePaint", "p"), ("CompositeMode", "B"), ("BackdropPaint", "p")],
+}
+VAR_OF = {3: 2, 5: 4, 7: 6, 9: 8, 13: 12, 15: 14, 17: 16, 19: 18, 21: 20, 23: 22, 25: 24, 27: 26, 29: 28, 31: 30}
+
+
+def colr_v1(data):
+    """COLR version 1 -> ({base gid: paint dict}, {gid: clip box tuple}, v0 records)."""
+    ver = u16(data, 0)
+    if ver != 1:
+        raise ReadError("COLR version %d" % ver)
+    nb, bo, lo, nl, bglo, llo, clo, vimo, ivso = struct.unpack_from(">HLLHLLLLL", data, 2)
+    layers = []
+    if llo:
+        n = u32(data, llo)
+        layers = [llo + u32(data, llo + 4 + 4 * i) for i in range(n)]
+    out = {}
+    if bglo:
+        n = u32(data, bglo)
+        last = -1
+        for i in range(n):
+            gid = u16(data, bglo + 4 + 6 * i)
+            if gid <= last:
+                raise ReadError("BaseGlyphPaintRecords not sorted by glyph id")
+            last = gid
+            out[gid] = _paint(data, bglo + u32(data, bglo + 6 + 6 * i), layers, 0)
+    clips = {}
+    if clo:
+        if u8(data, clo) != 1:
+            raise ReadError("ClipList format")
+        n = u32(data, clo + 1)
+        for i in range(n):
+            p = clo + 5 + 7 * i
+            s, e, bo_ = u16(data, p), u16(data, p + 2), u24(data, p + 4)
+            b = clo + bo_
+            f = u8(data, b)
+            box = (i16(data, b + 1), i16(data, b + 3), i16(data, b + 5), i16(data, b + 7))
+            if f == 2:
+                box += (u32(data, b + 9),)
+            elif f != 1:
+                raise ReadError("ClipBox format %d" % f)
+            for g in range(s, e + 1):
+                if g in clips:
+                    raise ReadError("clip ranges overlap")
+                clips[g] = box
+    v0 = []
+    for i in range(nb):
+        p = bo + 6 * i
+        v0.append((u16(data, p), u16(data, p + 2), u16(data, p + 4)))
+    return out, clips, v0
+
+
+def _colorline(data, p, var):
+    ext, n = u8(data, p), u16(data, p + 1)
+    stops = []
+    q = p + 3
+    for _ in range(n):
+        st = {"StopOffset": _F214(i16(data, q)), "PaletteIndex": u16(data, q + 2), "Alpha": _F214(i16(data, q + 4))}
+        q += 6
+        if var:
+            st["VarIndexBase"] = u32(data, q)
+            q += 4
+        stops.append(st)
+    if ext not in EXTEND:
+        raise ReadError("extend mode %d" % ext)
+    return {"Extend": EXTEND[ext], "ColorStop": stops}
+
+
+def _paint(data, p, layers, depth):
+    if depth > 40:
+        raise ReadError("paint graph too deep / cyclic")
+    fmt = u8(data, p)
+    var = fmt in VAR_OF
+    base = VAR_OF.get(fmt, fmt)
+    if base not in PAINT_LAYOUT:
+        raise ReadError("paint format %d" % fmt)
+    out = {"Format": fmt}
+    q = p + 1
+    for name, kind in PAINT_LAYOUT[base]:
+        if kind == "p":
+            out[name] = _paint(data, p + u24(data, q), layers, depth + 1)
+            q += 3
+        elif kind == "c":
+            out[name] = _colorline(data, p + u24(data, q), var)
+            q += 3
+        elif kind == "t":
+            t = p + u24(data, q)
+            q += 3
+            out[name] = dict(zip(("xx", "yx", "xy", "yy", "dx", "dy"), (_FIX(i32(data, t + 4 * k)) for k in range(6))))
+            if var:
+                out[name]["VarIndexBase"] = u32(data, t + 24)
+        elif kind in ("g", "H"):
+            out[name] = u16(data, q)
+            q += 2
+        elif kind in ("B", "n"):
+            out[name] = u8(data, q)
+            q += 1
+        elif kind == "w":
+            out[name] = i16(data, q)
+            q += 2
+        elif kind == "W":
+            out[name] = u16(data, q)
+            q += 2
+        elif kind == "f":
+            out[name] = _F214(i16(data, q))
+            q += 2
+        elif kind == "a":
+            out[name] = _ANG(i16(data, q))
+            q += 2
+        elif kind == "A":
+            out[name] = _BIASED(i16(data, q))
+            q += 2
+        elif kind == "L":
+            out[name] = u32(data, q)
+            q += 4
+    if var and base != 12:
+        out["VarIndexBase"] = u32(data, q)
+    if base == 1:
+        first, n = out.pop("FirstLayerIndex"), out.pop("NumLayers")
+        if first + n > len(layers):
+            raise ReadError("PaintColrLayers %d+%d beyond %d layers" % (first, n, len(layers)))
+        out["Layers"] = [_paint(data, layers[first + i], layers, depth + 1) for i in range(n)]
+    return out
